@@ -8,7 +8,7 @@ from typing import Dict, List, Optional, Set, Tuple
 from ..core import astutil as A
 from ..core.index import AnalysisError, FuncInfo, external_init_signature
 from ..selftest import M
-from .common import T, calls_named, conds, every_origin, facts, need, where
+from .common import T, calls_named, conds, conjuncts, every_origin, facts, need, where
 from .rounding import check_helper, is_otround
 from . import c08
 
@@ -343,8 +343,9 @@ def r055(prog, chk):
             if not zero:
                 continue
             n += 1
-            par = prog.ix.parent(st)
-            vals = list(par.test.values) if isinstance(par, ast.If) and isinstance(par.test, ast.BoolOp) and isinstance(par.test.op, ast.And) else []
+            # the whole guard, as a conjunction of atoms: two class-ness tests and the zero test, nothing else
+            zc = zero[0]
+            vals = conjuncts(zc) or []
             classness = set()
             for v in vals:
                 if isinstance(v, ast.Attribute) and v.attr in ("firstIsClass", "secondIsClass"):
@@ -413,11 +414,11 @@ def r056(prog, chk):
     # v2 drops clashing directions / bidi classes in the splitter
     pd = ix.get_func(f"{KERN2}:partition_by_direction")
     conts = [s for s in A.stmts_of(pd.node) if isinstance(s, ast.Continue)]
-    chk.ob("R05.6", f"{pd.short}|clashing direction and clashing bidi parts are skipped", len(conts) >= 2 and all(any(isinstance(x, ast.Compare) and isinstance(x.ops[0], ast.NotEq) for g in conds(prog, pd, s) for x in ast.walk(g.test)) for s in conts),
+    chk.ob("R05.6", f"{pd.short}|clashing direction and clashing bidi parts are skipped", len(conts) >= 2 and all(any(o == "ne" for o, l, r in facts(prog, pd, s)) for s in conts),
            where(pd), detail=f"{len(conts)} skip statements under != tests", message="partition_by_direction no longer skips parts with clashing direction or bidi class")
     pb = ix.get_func(f"{KERN1}:partitionByScript")
     conts = [s for s in A.stmts_of(pb.node) if isinstance(s, ast.Continue)]
-    chk.ob("R05.6", f"{pb.short}|mixed-direction parts are skipped", len(conts) >= 1 and all(any(isinstance(x, ast.Compare) and isinstance(x.ops[0], ast.NotEq) for g in conds(prog, pb, s) for x in ast.walk(g.test)) for s in conts),
+    chk.ob("R05.6", f"{pb.short}|mixed-direction parts are skipped", len(conts) >= 1 and all(any(o == "ne" for o, l, r in facts(prog, pb, s)) for s in conts),
            where(pb), detail=f"{len(conts)} skip statement(s)", message="partitionByScript no longer skips parts with mixed direction")
     chk.minimum("R05.6", 7)
 
@@ -443,12 +444,13 @@ def r057(prog, chk):
             tests = []
             for st in A.stmts_of(f.node):
                 if isinstance(st, ast.Continue) and isinstance(ix.parent(st), ast.If):
-                    tests.append(ix.parent(st).test)
-            miss1 = [t for t in tests if isinstance(t, ast.BoolOp) and isinstance(t.op, ast.And) and any(isinstance(x, ast.Compare) and isinstance(x.ops[0], ast.NotIn) and "glyphSet" in T(x.comparators[0]) for x in t.values)]
+                    # the guard as the rules see it (negations normalised: `not (A or b in gs)` reads `not A and b not in gs`)
+                    tests += [conjuncts(g) for g in conds(prog, f, st) if (g.raw if g.raw is not None else g.test) is ix.parent(st).test]
+            miss1 = [t for t in tests if t and len(t) >= 2 and any(isinstance(x, ast.Compare) and isinstance(x.ops[0], ast.NotIn) and "glyphSet" in T(x.comparators[0]) for x in t)]
             ok = len(miss1) == 2
             sides = set()
             for t in miss1:
-                for x in t.values:
+                for x in t:
                     if isinstance(x, ast.Compare):
                         nm = T(x.left)
                         ds = prog.reaching(f, nm, x.left) if isinstance(x.left, ast.Name) else []
@@ -492,7 +494,14 @@ def _shape_conditions(prog, f: FuncInfo) -> Set[str]:
     out = set()
     for st in A.stmts_of(f.node):
         if isinstance(st, ast.Continue) and isinstance(prog.ix.parent(st), ast.If):
-            out.add(A.keytext(f.node, prog.ix.parent(st).test))
+            par = prog.ix.parent(st).test
+            norm = [g for g in conds(prog, f, st) if (g.raw if g.raw is not None else g.test) is par]
+            if norm and conjuncts(norm[0]) is not None:
+                out.add(" and ".join(sorted(A.keytext(f.node, x) for x in conjuncts(norm[0]))))
+            elif norm:
+                out.add(("" if norm[0].polarity else "not ") + A.keytext(f.node, norm[0].test))
+            else:
+                out.add(A.keytext(f.node, par))
     return out
 
 
